@@ -24,7 +24,8 @@ def grid_lists(rnd, maxlen, ppm):
         theo8 = sorted(800 + rnd.randint(0, span) for _ in range(nt))
         obs8 = sorted(800 + rnd.randint(0, span) for _ in range(no))
         tol = rnd.choice([0, 0, 1, 1, 2, 3, 5, span, 2 * span + 5])    # eighths
-    inten = [rnd.choice([1, 2, 2, 5, 10]) for _ in obs8]
+    # a spectrum may hold peaks of intensity 0 (and, now and then, nothing but such peaks): they are peaks all the same
+    inten = [rnd.choice([1, 2, 2, 5, 10, 0]) for _ in obs8] if rnd.random() < 0.85 else [0 for _ in obs8]
     return theo8, obs8, tol, inten
 
 
